@@ -6,6 +6,7 @@ import numpy as np
 
 from .. import formcheck, inputs, kernels, refeval, specs, strategies
 from ..common import Run, ShardResult, run_shards, scratch, spec_hash, verif_seed
+from ..common import thorough  # noqa: E402
 from ..hyp import Outcome, drive
 
 PROP = "C09"
@@ -132,7 +133,7 @@ def shard(shard, nshards, n, tier, seed):
 
 def run(tier: str) -> int:
     run_ = Run(PROP, tier, "exploration", RULE)
-    n = 5 if tier == "quick" else 100
+    n = 5 if tier == "quick" else thorough(40)
     for part in run_shards(shard, 16, n=n, tier=tier, seed=verif_seed()):
         run_.merge(part)
     run_.assumptions = [
